@@ -214,13 +214,29 @@ Proof.
   - destruct (dict_del (resources s) p) as [d|] eqn:E; [|discriminate]. inversion H; subst. exact Hc.
 Qed.
 
+Lemma site_at_wf : forall addr n c, node_wf n = true -> site_at addr n = Some c -> node_wf c = true.
+Proof.
+  induction addr as [|k addr IH]; intros n c Hw H; destruct n as [rs ss | id]; try discriminate.
+  - inversion H; subst. exact Hw.
+  - cbn [site_at] in H. destruct (dict_get_opt ss k) as [c0|] eqn:Eg; [|discriminate].
+    rewrite node_wf_site in Hw. apply andb_true_iff in Hw. destruct Hw as [_ Hc].
+    apply (IH c0 c (children_wf_get ss k c0 Hc Eg) H).
+Qed.
+Lemma add_subsite_keeps_wf : forall p c, node_wf c = true -> keeps_wf (fun s => add_resource s p (ChildSubsite c)).
+Proof.
+  intros p c Hcw s s' Hw Hc H. split; [apply (add_resource_wf _ _ s s' p _ Hw H)|].
+  rewrite add_resource_sub in H. inversion H; subst. cbn [subsites]. apply children_wf_set; assumption.
+Qed.
 Lemma step_wf : forall root o, node_wf root = true -> node_wf (fst (step root o)) = true.
 Proof.
-  intros root o Hw. destruct o as [addr p t | addr p | pipe m q | addr]; cbn [step]; try exact Hw.
+  intros root o Hw. destruct o as [addr p t | addr p | pipe m q | addr | obs m | src dst p | ]; cbn [step]; try exact Hw.
   - destruct (update_at addr (fun s => add_resource s p (thing_child t)) root) as [[n'|e]|] eqn:E; cbn [apply_update fst]; try exact Hw.
     apply (update_at_wf addr _ root n' (add_keeps_wf p t) Hw E).
   - destruct (update_at addr (fun s => remove_resource s p) root) as [[n'|e]|] eqn:E; cbn [apply_update fst]; try exact Hw.
     apply (update_at_wf addr _ root n' (remove_keeps_wf p) Hw E).
+  - destruct (site_at src root) as [c|] eqn:Es; [|exact Hw].
+    destruct (update_at dst (fun s => add_resource s p (ChildSubsite c)) root) as [[n'|e]|] eqn:E; cbn [apply_update fst]; try exact Hw.
+    apply (update_at_wf dst _ root n' (add_subsite_keeps_wf p c (site_at_wf src root c Hw Es)) Hw E).
 Qed.
 Lemma run_wf : forall ops root, node_wf root = true -> node_wf (fst (run root ops)) = true.
 Proof.
